@@ -64,6 +64,7 @@ THEOREMS = [
     "FaxVerif.C10.accepts_iff",
     "FaxVerif.C10.tree_type_pointer_counterexample",
     "FaxVerif.C10.enum_qualified",
+    "FaxVerif.C10.enum_world_resolves",
     "FaxVerif.C10.enum_first_definition_wins",
     "FaxVerif.C10.enum_dot_refused",
     "FaxVerif.C10.unknown_namespace_refused",
@@ -72,7 +73,8 @@ RULE = (
     "unit streams: type strings = (const?) base x 0..3 stars x blank patterns (exhaustive over a small alphabet, then random "
     "incl. unicode blanks and arbitrary strings); terminal/collection constructors; member access for pointer depth x deref "
     "count 0..3 exhaustive then random to 9; metadata lists -> registry; determine_type_mf on declared / undeclared / base-type "
-    "receivers; enum definitions x attribute paths. Pipeline stream: one query per case whose own metadata declares the event "
+    "receivers; lists of 1-4 enum declarations (several enums in the same nested namespace, siblings, parent/child, every processing order of "
+    "small worlds) x attribute paths to every value. Pipeline stream: one query per case whose own metadata declares the event "
     "collection (on CMS with element_pointer absent / False / True), the method signatures (value / pointer depth 0..3 / object / collection by value or pointer of values or "
     "pointers / deref_count 0..3 / tree_type) and enums; columns are chains of calls, indexings and Select/SelectMany loops over "
     "them; sequences of 2-3 such translations in one process (same undeclared method used repeatedly, on new and shared executors, through write_cpp_files and through "
@@ -969,9 +971,13 @@ def random_world(rng) -> Dict[str, Any]:
     backend = rng.choice(["atlas", "atlas", "cms_aod", "cms_miniaod"])
     sigs: List[Dict[str, Any]] = []
     enums = []
-    if rng.random() < 0.4:
-        enums.append({"ns": rng.choice(["NS", "NS.Sub", "xAOD.Thing"]), "name": "Color", "values": ["Red", "Blue"]})
-    enum_t = ("::".join(enums[0]["ns"].split(".")) + "::Color") if enums else None
+    if rng.random() < 0.45:
+        for name in rng.sample(["Color", "Shape", "Kind"], rng.choice([1, 2, 2, 3])):
+            # value names are per enum name, so two enums never put the same enumerator into one C++ scope twice … unless
+            # the same enum name is used in two namespaces, which is fine
+            enums.append({"ns": rng.choice(["NS", "NS.Sub", "NS.Sub", "NS.Sub.Deep", "NS.Other", "xAOD.Thing"]), "name": name, "values": list(ENUM_VALUES[name][:rng.randint(1, 3)])})
+    enum_ts = [enum_cpp_type(e) for e in enums]
+    enum_t = enum_ts[0] if enum_ts else None
     names = iter(f"m{i}" for i in range(100))
     for owner in CLASSES:
         if rng.random() < 0.85:  # most classes can end a chain on a declared arithmetic value
@@ -986,7 +992,7 @@ def random_world(rng) -> Dict[str, Any]:
             elif r < 0.6:
                 sigs.append(mk_value_sig(rng, owner, m, rng.choice(CLASSES[1:]), rng.choice([0, 1, 1, 2, 3]), deref, None, const=rng.random() < 0.2))
             elif r < 0.7 and enum_t:
-                sigs.append(mk_value_sig(rng, owner, m, enum_t, 0, deref, rng.choice([None, "int"])))
+                sigs.append(mk_value_sig(rng, owner, m, rng.choice(enum_ts), 0, deref, rng.choice([None, "int"])))
             else:
                 if rng.random() < 0.3:
                     ebase, edepth = rng.choice(ARITH), 0
@@ -1087,7 +1093,7 @@ def random_col(rng, world, force_undeclared: bool = False) -> Optional[Dict[str,
         if s["base"] in ARITH and rng.random() < 0.2:
             fin = {"k": "addOne"}
         elif world["enums"] and "::" in s["base"] and rng.random() < 0.6:
-            e = world["enums"][0]
+            e = next((x for x in world["enums"] if enum_cpp_type(x) == s["base"]), world["enums"][0])
             fin = {"k": "eqConst", "path": e["ns"].split(".") + [e["name"], rng.choice(e["values"])]}
     return {"steps": steps, "fin": fin}
 
@@ -1413,6 +1419,40 @@ def judge_sequences(ctx, stream: str, seqs: List[Dict[str, Any]]):
 HOW_UNIT = "call the function named by `case.op` with the arguments of `case` (see impl_unit in tools/props/c10.py); ./check C10 --replay <this file>"
 
 
+ENUM_VALUES = {"Color": ["Red", "Blue", "Green"], "Kind": ["K1", "K2", "K3"], "Shape": ["Round", "Square", "Flat"], "B": ["B1", "B2", "B3"]}
+ENUM_NSS = ["NS", "NS.Sub", "NS.Sub.Deep", "NS.Other"]
+
+
+def enum_worlds_exhaustive():
+    """Every ordered pair of different enums over a top-level namespace, a nested one, a deeper one and a sibling (so: two
+    enums in the SAME nested namespace, parent/child, siblings — each in both processing orders), plus three in one namespace."""
+    yield [{"ns": "NS.Sub", "name": "Color", "values": ["Red", "Blue"]}]
+    for n1 in ENUM_NSS:
+        for n2 in ENUM_NSS:
+            yield [{"ns": n1, "name": "Color", "values": ["Red", "Blue"]}, {"ns": n2, "name": "Shape", "values": ["Round", "Square"]}]
+    three = [{"ns": "NS.Sub", "name": n, "values": ENUM_VALUES[n][:2]} for n in ("Color", "Shape", "Kind")]
+    for perm in itertools.permutations(three):
+        yield list(perm)
+
+
+def enum_cpp_type(e) -> str:
+    return "::".join(e["ns"].split(".")) + "::" + e["name"]
+
+
+def enum_pipeline_worlds(tier: str):
+    """The same worlds through the whole pipeline: one method per enum returns it, one column per enum compares it with
+    one of its values (and one stores it through tree_type int)."""
+    backends = ["atlas"] if tier == "quick" else BACKENDS
+    for bi, defs in enumerate(enum_worlds_exhaustive()):
+        backend = backends[bi % len(backends)]
+        sigs, cols = [], []
+        for i, e in enumerate(defs):
+            sigs.append(mk_value_sig(None, "T0", f"e{i}", enum_cpp_type(e), 0, None, "int" if i == 0 else None))
+            cols.append({"steps": [call(f"e{i}")], "fin": {"k": "eqConst", "path": e["ns"].split(".") + [e["name"], e["values"][-1]]}})
+        cols.append({"steps": [call("e0")], "fin": {"k": "plain"}})
+        yield {"backend": backend, "sigs": sigs, "enums": defs, "cols": cols}
+
+
 def unit_requests(ctx) -> List[Tuple[str, Dict[str, Any], bool]]:
     rng, tier = ctx.rng, ctx.tier
     R: List[Tuple[str, Dict[str, Any], bool]] = []  # (stream, request, nontrivial)
@@ -1463,12 +1503,17 @@ def unit_requests(ctx) -> List[Tuple[str, Dict[str, Any], bool]]:
         decl = [md["method_name"] for md in mds if md["type_string"] == owner]
         m = rng.choice(decl) if decl and rng.random() < 0.6 else "zz_undeclared"
         R.append(("mf", {"op": "mf", "mds": mds, "parent": {"name": owner, "depth": rng.randint(0, 2)}, "m": m}, True))
-    # --- enums
-    nss = ["A", "A.B", "A.B.C", "xAOD.Jet", "Z"]
+    # --- enums: several declarations per world — the same nested namespace, siblings, deeper levels, both processing orders
+    for defs in enum_worlds_exhaustive():
+        for d in defs:
+            for v in d["values"]:
+                R.append(("enum-worlds", {"op": "enum", "enums": defs, "path": d["ns"].split(".") + [d["name"], v]}, len(defs) > 1))
+    nss = ["A", "A.B", "A.B.C", "A.D", "xAOD.Jet", "xAOD.Jet.Sub", "Z"]
     for _ in range(300 if tier == "quick" else 3000):
         defs = []
-        for _ in range(rng.randint(1, 3)):
-            defs.append({"ns": rng.choice(nss), "name": rng.choice(["Color", "Kind", "B"]), "values": rng.sample(["Red", "Blue", "Green", "K1"], rng.randint(1, 3))})
+        for _ in range(rng.choice([1, 2, 2, 3, 3, 4])):
+            name = rng.choice(["Color", "Kind", "Shape", "B"])
+            defs.append({"ns": rng.choice(nss), "name": name, "values": rng.sample(ENUM_VALUES[name], rng.randint(1, 3))})
         d = rng.choice(defs)
         r = rng.random()
         if r < 0.6:
@@ -1497,8 +1542,10 @@ def judge_units(ctx):
             reqs.append({"op": "spec_access", "x": req["x"], "d": req["d"], "n": req["n"], "obs": im.get("text", "")})
         elif req["op"] == "enum":
             reqs.append(req)
-            ns = ".".join(req["path"][:-2]) if len(req["path"]) > 2 else ""
-            reqs.append({"op": "spec_enum", "ns": ns, "v": req["path"][-1], "obs": im.get("cpp", "")})
+            w = {"op": "spec_enum_world", "enums": req["enums"], "path": req["path"]}
+            if im.get("kind") == "value":
+                w["obs"] = im.get("cpp", "")
+            reqs.append(w)
         else:
             reqs.append(req)
             reqs.append({"op": "parse", "s": ""})  # filler: two answers per case
@@ -1531,8 +1578,14 @@ def judge_units(ctx):
             if not same_unit(op, a, im):
                 ctx.disagreement("base_type_member_access", case, a, im)
         elif op == "enum":
-            if im.get("kind") == "value" and not b.get("holds", False):
+            if b.get("obliged"):
+                ctx.count("unit:enum-value-of-declared-enum")
+            if not b.get("render_ok", False):
                 ctx.violation(key="enum:" + json.dumps(req, sort_keys=True), what="an enum constant does not render as ns::…::Value", case=case, observed=im, how=HOW_UNIT)
+            elif b.get("obliged") and not b.get("holds", False):
+                ctx.violation(key="enum:" + json.dumps(req, sort_keys=True),
+                              what=f"with these enum declarations processed in this order, `{'.'.join(req['path'])}` is a value of a declared enum and must render as `{b.get('expected')}`, but the translator answers {im}",
+                              case=case, observed=im, how=HOW_UNIT)
             if not same_unit(op, a, im):
                 ctx.disagreement("enum-resolution", case, a, im)
         else:
@@ -1594,8 +1647,10 @@ def run(ctx):
     pipe_corpus = [c for c in corpus if c.get("kind") == "pipeline"]
     if pipe_corpus:
         judge_pipeline(ctx, "corpus", [mk_case(c) for c in pipe_corpus], compile_all=True)
-    judge_units(ctx)
     thorough = ctx.tier == "thorough"
+    # worlds with several enum declarations, through whole queries first (a failing world comes with its query)
+    judge_pipeline(ctx, "enum-worlds", list(enum_pipeline_worlds(ctx.tier)), compile_all=thorough, compile_sample=20)
+    judge_units(ctx)
     ex = list(exhaustive_worlds(ctx.tier)) + list(element_pointer_worlds(ctx.tier))
     judge_pipeline(ctx, "exhaustive", ex, compile_all=thorough, compile_sample=60)
     n = 350 if not thorough else 6000
@@ -1623,7 +1678,7 @@ def run(ctx):
 def search(ctx, broken):
     """A broken obligation or correspondence: hunt for a concrete failing input with the Spec (and g++) as the only judges."""
     sub = _SearchCtx(ctx)
-    cases = list(exhaustive_worlds("thorough")) + list(element_pointer_worlds("thorough")) + [random_case(ctx.rng) for _ in range(1500)]
+    cases = list(exhaustive_worlds("thorough")) + list(element_pointer_worlds("thorough")) + list(enum_pipeline_worlds("thorough")) + [random_case(ctx.rng) for _ in range(1500)]
     judge_pipeline(sub, "search", cases, compile_all=False, compile_sample=150)
     if not sub.violations:
         judge_sequences(sub, "search", list(exhaustive_sequences("thorough")) + [random_sequence(ctx.rng) for _ in range(300)])
@@ -1789,9 +1844,19 @@ def replay(ctx, rep) -> int:
             return 0 if a.get("holds") else 1
         a = ctx.driver(DRIVER, [req])[0]
         print("model:", json.dumps(a, ensure_ascii=False))
+        if op == "enum":
+            w = {"op": "spec_enum_world", "enums": req["enums"], "path": req["path"]}
+            if im.get("kind") == "value":
+                w["obs"] = im.get("cpp", "")
+            b = ctx.driver(DRIVER, [w])[0]
+            print("spec (on the declarations alone):", b)
+            if not b.get("render_ok", False) or (b.get("obliged") and not b.get("holds", False)):
+                return 1
         return 0 if same_unit(op, a, im) else 1
     case = mk_case(c)
     print("query:", query_src(case))
+    for e in case.get("enums", []):
+        print("enum declaration:", e)
     for md in case_mds(case):
         print("metadata:", md)
     r = run_pipeline(case)
